@@ -5,6 +5,7 @@ variants, from three sources: in-memory registry, adsorbates.json, default.db re
 an independent sqlite3 connection).  Thermodynamic part samples temperatures.
 """
 
+import copy
 import json
 import os
 import sqlite3
@@ -133,6 +134,24 @@ def _run_registry(case, ctx):
     from pygaps.core.baseisotherm import BaseIsotherm
     owner = case["name"]
     strings = [owner] + [a for a in case["alias"] if a.lower() != owner.lower()]
+    if case["source"] == "json":
+        # an adsorbate object built from the entry of the source list itself (what db_create and users of the list do) answers to its
+        # name and to every alias, in any letter case
+        entry = next((e for e in _json_entries() if e["name"] == owner), None)
+        try:
+            obj = pygaps.Adsorbate(store=False, **copy.deepcopy(entry))
+        except Exception as exc:
+            ctx.violation("Adsorbate/json-entry-cannot-be-built", "an entry of the shipped source list cannot be turned into an Adsorbate", owner=owner, exc=exc)
+            obj = None
+        if obj is not None:
+            for s in strings:
+                for v in _variants(s):
+                    ctx.case(["json-object", v])
+                    ctx.count("lookups", "json-object")
+                    if not (obj == v):
+                        ctx.violation("Adsorbate.__eq__/json-entry-does-not-answer-to-its-own-name-or-alias", "an adsorbate built from the source list does not compare equal to one of its own designations",
+                                      owner=owner, designation=v, aliases=list(obj.alias)[:8])
+                        break
     for s in strings:
         for v in _variants(s):
             ctx.case(["registry", v])
